@@ -1,1 +1,20 @@
-fn main() {}
+//! wire-level monitors: C01 C02 C03 C12 (C20 lives in the async build).
+mod c02;
+mod c03;
+mod common;
+
+use vkit::run::{Args, Report};
+
+fn main() {
+    let args = Args::parse();
+    let mut rep = Report::new(&args);
+    match args.prop.as_str() {
+        "C02" => c02::run(&args, &mut rep),
+        "C03" => c03::run(&args, &mut rep),
+        other => {
+            eprintln!("wire: unknown property {}", other);
+            std::process::exit(2);
+        }
+    }
+    rep.finish();
+}
